@@ -40,6 +40,8 @@ func Main(v int) string {
   typedef level { type enumeration { enum low; enum mid { value 5; } enum high; } default mid; }
   typedef flags { type bits { bit a; bit b { position 4; } bit c; } }
   identity local-id { base l:base-id; }
+  identity kind; identity kz { base kind; } identity ka { base kind; } identity km { base kind; } identity kb { base kind; }
+  identity sub-kind { base kz; } identity sub-kind2 { base kz; base ka; }
   grouping addr { leaf host { type string; default "h%[1]d"; } leaf port { type uint16 { range "1..65535"; } default 80; }
     uses l:stamp; }
   grouping deep { container d1 { container d2 { uses addr; leaf-list tags { type string; } } } }
@@ -56,6 +58,7 @@ func Main(v int) string {
     leaf mark { type empty; }
     leaf cond { type int32; when "on='true'"; }
     leaf side { type identityref { base l:base-id; } }
+    leaf knd { type identityref { base kind; } }
     leaf un { type union { type int32; type enumeration { enum auto; } type string; } }
     leaf ref { type leafref { path "../name"; } }
     leaf bin { type binary; }
@@ -279,11 +282,11 @@ func Doc(w int) string {
 			i, w, i, (w*7+i)%101, i, 1000+i, int64(w)<<40+int64(i), w+i, strings.Join(subs, ",")))
 	}
 	how := []string{`"a1":"x","a2":3`, `"b1":{"z":"zz"}`, `"solo":"s"`}[w%3]
-	return fmt.Sprintf(`{"sys":{"name":"n%d","load":%d,"lvl":"%s","fl":"a c","ratio":%d.125,"big":%d,"neg":%d,"on":%v,"side":"%s","un":%s,`+
+	return fmt.Sprintf(`{"sys":{"name":"n%d","load":%d,"lvl":"%s","fl":"a c","ratio":%d.125,"big":%d,"neg":%d,"on":%v,"side":"%s","knd":"%s","un":%s,`+
 		`"ref":"n%d","cond":4,"nums":[%d,2,3],"words":["b","a","c"],"blob":{"any":[1,"two",{"three":3}]},`+
 		`"d1":{"d2":{"host":"dh","tags":["t1","t2"]}},"opt":{"x":%d},%s},"item":[%s]}`,
 		w, w%101, []string{"low", "mid", "high"}[w%3], w%10, uint64(18446744073709551615)-uint64(w), -int64(w)-(1<<40), w%2 == 0,
-		[]string{"left", "right", "local-id"}[w%3], []string{`7`, `"auto"`, `"text"`}[w%3], w, w, w%900, how, strings.Join(items, ","))
+		[]string{"left", "right", "local-id"}[w%3], []string{"kz", "sub-kind2", "kb", "ka"}[w%4], []string{`7`, `"auto"`, `"text"`}[w%3], w, w, w%900, how, strings.Join(items, ","))
 }
 
 // Use runs the operations of worker w against the shared module; every browser, store and writer is its own.
